@@ -5,7 +5,7 @@ import rx
 import rxsci as rs
 
 from rxsim.runner import Check, Outcome
-from rxsim.bytesim import gen_cuts, cut, drive, collect
+from rxsim.bytesim import gen_cuts, cut, drive, collect, drive_concurrent, merge_order
 
 ENCODINGS = ['utf-8', 'utf-16', 'utf-32', 'latin-1', 'utf-8-sig', 'utf-16-le', 'utf-16-be', 'utf8']
 POOL = ['a', 'Z', ' ', '\n', '\x00', 'é', 'ÿ', '\x80']
@@ -24,7 +24,7 @@ class C17(Check):
     real = ['rxsci.data.encode / decode (current working tree)', 'codecs incremental encoders/decoders (CPython)', 'RxPY Subject/pipe']
     stubs = ['producer of the strings', 'transport re-cutting the bytes', 'final subscriber']
     assumptions = ['inputs contain no lone surrogates (not encodable)', 'latin-1 inputs are restricted to U+0000..U+00FF']
-    probe_names = ('zwnbsp_in_text', 'cut_inside_multibyte', 'astral', 'combining', 'empty_string', 'bom_encoding', 'swept_all_single_cuts',
+    probe_names = ('concurrent_streams', 'signature_lookalike_prefix', 'zwnbsp_in_text', 'cut_inside_multibyte', 'astral', 'combining', 'empty_string', 'bom_encoding', 'swept_all_single_cuts',
                    'enc:utf-8', 'enc:utf-16', 'enc:utf-32', 'enc:latin-1')
     quick_cap = 200000
 
@@ -35,7 +35,16 @@ class C17(Check):
         pool = POOL if enc == 'latin-1' else POOL + WIDE + WIDE
         for _ in range(n):
             strings.append(''.join(rng.choice(pool) for _ in range(rng.choice([0, 0, 1, 2, 4, 9, 30 if tier != 'quick' else 3]))))
-        return {'encoding': enc, 'strings': strings, 'cutseed': rng.randrange(1 << 30), 'sweep': rng.random() < 0.6}
+        if strings and rng.random() < 0.12:
+            # text whose first bytes look like the signature of *another* encoding
+            look = ['\u00ef\u00bb\u00bf', '\u00ff\u00fe', '\u00fe\u00ff', '\u00ff\u00fe\x00\x00'] if enc == 'latin-1' else \
+                ['\ufeff', '\ufffe', '\u00ef\u00bb\u00bf', '\ufeff\ufeff']
+            strings[0] = rng.choice(look) + strings[0]
+        case = {'encoding': enc, 'strings': strings, 'cutseed': rng.randrange(1 << 30), 'sweep': rng.random() < 0.6}
+        if rng.random() < 0.2:
+            case['concurrent'] = [[''.join(rng.choice(pool) for _ in range(rng.choice([0, 1, 3, 8]))) for _ in range(rng.choice([1, 2, 3]))]
+                                  for _ in range(rng.choice([1, 2]))]
+        return case
 
     def valid(self, case):
         try:
@@ -46,6 +55,10 @@ class C17(Check):
                     return False
                 if case['encoding'] == 'latin-1' and any(ord(c) > 255 for c in s):
                     return False
+            for st in case.get('concurrent') or ():
+                for s2 in st:
+                    if any(0xD800 <= ord(c) <= 0xDFFF for c in s2) or (case['encoding'] == 'latin-1' and any(ord(c) > 255 for c in s2)):
+                        return False
             return case.get('cuts') is None or all(isinstance(c, int) and c >= 0 for c in case['cuts'])
         except (KeyError, TypeError):
             return False
@@ -102,6 +115,28 @@ class C17(Check):
             if term is None or term[0] != 'completed' or ''.join(got) != text:
                 out.add('roundtrip', enc, {'cuts': cs, 'terminal': repr(term), 'got': repr(''.join(got))[:300], 'expected': repr(text)[:300]})
                 break
+        if not out.violations and case.get('concurrent'):
+            streams = [strings] + [list(x) for x in case['concurrent']]
+            rng = random.Random(case['cutseed'] ^ 0x99)
+            res = drive_concurrent(streams, lambda i: rs.data.encode(enc), merge_order(rng, [len(x) for x in streams]))
+            p['concurrent_streams'] += 1
+            blobs = [b''.join(o) for o, _ in res]
+            for i, (o, t_i) in enumerate(res):
+                try:
+                    ok = blobs[i].decode(enc) == ''.join(streams[i])
+                except Exception:
+                    ok = False
+                if t_i is None or t_i[0] != 'completed' or not ok:
+                    out.add('concurrent-encode', enc, {'stream': i, 'of': len(streams), 'terminal': repr(t_i)})
+                    break
+            if not out.violations:
+                cl = [cut(b, gen_cuts(rng, len(b), [1, 2, 3])) for b in blobs]
+                res = drive_concurrent(cl, lambda i: rs.data.decode(enc), merge_order(rng, [len(x) for x in cl]))
+                for i, (o, t_i) in enumerate(res):
+                    if t_i is None or t_i[0] != 'completed' or ''.join(o) != ''.join(streams[i]):
+                        out.add('concurrent-decode', enc, {'stream': i, 'of': len(streams), 'terminal': repr(t_i),
+                                                           'got': repr(''.join(o))[:200], 'expected': repr(''.join(streams[i]))[:200]})
+                        break
         out.steps = runs
         out.ticks = n
         out.digest = repr((blob.hex()[:200], [v.to_json() for v in out.violations], runs))
@@ -114,6 +149,8 @@ class C17(Check):
             p['astral'] += 1
         if '\ufeff' in text:
             p['zwnbsp_in_text'] += 1
+        if text[:2] in ('\u00ef\u00bb', '\u00ff\u00fe', '\u00fe\u00ff') or text[:1] in ('\ufeff', '\ufffe'):
+            p['signature_lookalike_prefix'] += 1
         if '\u0301' in text:
             p['combining'] += 1
         if any(s == '' for s in strings):
